@@ -1882,6 +1882,14 @@ static bool can_combine_comment(Chunk *pc, cmt_reflow &cmt)
       // Make sure the comment is the same type at the same column
       next = next->GetNext();
 
+      if (  next->Is(CT_COMMENT)
+         && (  next->Len() < 4
+            || !next->GetStr().startswith("*/", next->Len() - 2)))
+      {
+         // a comment cut off by the end of the file has no closer to strip
+         return(false);
+      }
+
       if (  next->Is(pc->GetType())
          && (  (  next->GetColumn() == 1
                && pc->GetColumn() == 1)
